@@ -10,6 +10,8 @@ import (
 	"math/big"
 	"net"
 	"os"
+	"strings"
+	"sync"
 	"time"
 
 	"github.com/coredhcp/coredhcp/plugins/allocators"
@@ -264,13 +266,15 @@ func concurrent(r *ev.Run) {
 	var total, steps int64
 	for i := range calls {
 		for j := range calls {
-			if i == j {
-				continue
-			}
+			// (i == j: the same operands from two callers at once - two clients naming one block)
 			ci, cj := calls[i], calls[j]
 			name := fmt.Sprintf("%s(%d)||%s(%d)", ci.fn, i, cj.fn, j)
 			sc := sched.Scenario{Name: "concurrent/" + name, Setup: func(run *verifsched.Run) func(*verifsched.Run) sched.Exec {
 				var ri, rj string
+				// every execution starts from the same call history (whatever the functions
+				// may remember from earlier calls is overwritten by this fixed prologue)
+				allocators.Offset(toIP(h("00000000000000000000000000000777")), toIP(big.NewInt(0)), 128)
+				allocators.AddPrefixes(toIP(h("00000000000000000000000000000777")), 1, 128)
 				run.Spawn("t0", func() { ri = eval(ci) })
 				run.Spawn("t1", func() { rj = eval(cj) })
 				return func(*verifsched.Run) sched.Exec {
@@ -286,6 +290,37 @@ func concurrent(r *ev.Run) {
 				}
 			}}
 			res := sched.Explore(sc, 2, 60*time.Second)
+			if strings.Contains(res.EngineError, "replay divergence") {
+				// the same schedule prefix led to another execution: the functions keep state
+				// between calls that the prologue does not reset. The schedules cannot be
+				// enumerated reproducibly then; fall back to free-running callers (a sample,
+				// reported as such) judged against the reference.
+				r.Capped(res.Scenario + ": executions are not reproducible (hidden state between calls); free-running fallback")
+				for round := 0; round < 300; round++ {
+					var wg sync.WaitGroup
+					var bad [2]string
+					for k, c := range []call{ci, cj} {
+						k, c := k, c
+						wg.Add(1)
+						go func() {
+							defer wg.Done()
+							for n := 0; n < 200; n++ {
+								if got := eval(c); got != want(c) {
+									bad[k] = got
+								}
+							}
+						}()
+					}
+					wg.Wait()
+					for k, c := range []call{ci, cj} {
+						if bad[k] != "" {
+							r.Violate("C20/concurrent/wrong-result-under-concurrency", fmt.Sprintf("%s(%x,%x,n=%d,p=%d) = %s while another goroutine was calling, want %s (free-running)", c.fn, c.a, c.b, c.n, c.p, bad[k], want(c)), map[string]interface{}{"fn": "concurrent", "scenario": res.Scenario})
+							round = 1 << 30
+						}
+					}
+				}
+				continue
+			}
 			if res.EngineError != "" {
 				panic("E2 engine error in " + res.Scenario + ": " + res.EngineError)
 			}
@@ -368,7 +403,7 @@ func run(r *ev.Run) {
 		dist = thoroughDistances
 		r.Rule("thorough: base patterns extended by every single-bit, 2^k-1 and (every third) two-bit pattern of 128 bits (5 700 patterns); distances extended by 2^k-1, 2^k, 2^k+1 for k = 0..65.")
 	}
-	r.Rule("complete product: p in 0..128 x 11 base bit patterns (incl. IPv4-mapped and IPv4-compatible addresses) masked to /p x 13 block distances (0,1,2,2^8,2^32-1,2^32,2^63-1,2^63,2^64-1,2^64,2^64+1,last block,last+1) x in-block offset {0,1,size-1} x both argument orders for Offset; AddPrefixes+inverse for every distance < 2^64; every ordered pair of base patterns through one reused argument buffer (purity: same result as with fresh slices); two concurrent callers (every ordered pair of 5 representative calls) under all schedules up to 2 preemptions at statement granularity; plus complete windows n=0..300 around the 2^64 and 2^128 carries for p in {0,1,2,62..66,126,127,128}. Reference: math/big. Class = function/p-range/outcome.")
+	r.Rule("complete product: p in 0..128 x 11 base bit patterns (incl. IPv4-mapped and IPv4-compatible addresses) masked to /p x 13 block distances (0,1,2,2^8,2^32-1,2^32,2^63-1,2^63,2^64-1,2^64,2^64+1,last block,last+1) x in-block offset {0,1,size-1} x both argument orders for Offset; AddPrefixes+inverse for every distance < 2^64; every ordered pair of base patterns through one reused argument buffer (purity: same result as with fresh slices); two concurrent callers (every ordered pair of 5 representative calls, incl. the same call twice) under all schedules up to 2 preemptions at statement granularity; plus complete windows n=0..300 around the 2^64 and 2^128 carries for p in {0,1,2,62..66,126,127,128}. Reference: math/big. Class = function/p-range/outcome.")
 	r.Assume("values outside the listed bit patterns / distances are not explored; only carry/borrow/shift shapes are exhaustive")
 	seenCase := map[string]bool{}
 	for p := 0; p <= 128; p++ {
